@@ -144,6 +144,11 @@ def run(c):
             conn = "cq%d" % i
             steps.append({"op": "connect", "conn": conn, "attr": {"uid": 0, "admin": 1, "dip": "168.63.129.16", "dport": 80}})
         hs = rand_headers(rnd)
+        if rnd.random() < 0.05:
+            # the client sends its own copies of the names the proxy stamps (any letter case): what the host receives under
+            # those names is the proxy's value alone, and that is what the MAC covers
+            hs = hs + [[rnd.choice(["x-ms-azure-host-claims", "X-MS-Azure-Host-Claims"]), '{ "isRoot": "false", "by": "client"}'],
+                       [rnd.choice(["x-ms-azure-host-date", "X-Ms-Azure-Host-Date"]), "Thu, 01 Jan 1970 00:00:00 GMT"]]
         steps.append({"op": "request", "conn": conn, "id": rid, "method": method, "target": target, "headers": hs,
                       "body": {"seed": i, "len": blen}, "framing": "cl" if blen and rnd.random() < 0.7 else ("chunked" if blen else "none")})
         reqs[rid] = {"method": method, "target": target, "blen": blen, "seed": i, "exempt": exempt, "key": cur}
@@ -179,6 +184,11 @@ def run(c):
     # own calls through the real clients
     for i, kind in enumerate(["goalstate", "sharedconfig", "imds"]):
         steps.append({"op": "own_call", "kind": kind, "tag": "own%d" % i})
+    # the builder route with a body, over the wire (1 byte, 83 bytes, the low limit)
+    own_bodies = {}
+    for i, n_ in enumerate([1, 83, 102400]):
+        steps.append({"op": "own_call", "kind": "post", "tag": "ownpost%d" % i, "rotate": {"len": n_}})
+        own_bodies["ownpost%d" % i] = bytes(((j * 7 + 3) & 0xff) for j in range(n_))
     ev, d, _ = rig.run_rig({"steps": steps, "drain_ms": 300}, "c04", timeout=900)
     rows, recv = [], {}
     cur_own = None
@@ -235,6 +245,8 @@ def run(c):
         if rid in reqs:
             body = rig.gen_body(reqs[rid]["seed"], reqs[rid]["blen"])
             exempt = reqs[rid]["exempt"]
+        elif rid in own_bodies:
+            body, exempt = own_bodies[rid], False
         elif "body" in e:
             body, exempt = e["body"], False
         else:
@@ -245,6 +257,10 @@ def run(c):
         if exempt:
             if auths:
                 kinds.setdefault("exempt-request-signed", []).append((rid, e))
+            continue
+        owned_n = [sum(1 for n, _ in hs if n.lower() == h) for h in ("x-ms-azure-host-claims", "x-ms-azure-host-date")]
+        if any(x != 1 for x in owned_n):
+            kinds.setdefault("owned-header-count-claims%d-date%d" % tuple(owned_n), []).append((rid, e))
             continue
         if len(auths) != 1:
             kinds.setdefault("authorization-header-count-%d" % len(auths), []).append((rid, e))
